@@ -11,10 +11,14 @@ thread_local! {
     static CALLS: Cell<u64> = const { Cell::new(0) };
     static MONO_CALLS: Cell<u64> = const { Cell::new(0) };
     static CLOCK_JUMPS: Cell<u64> = const { Cell::new(0) };
+    static POISON: Cell<u64> = const { Cell::new(0) };
+    static POISONED_BYTES: Cell<u64> = const { Cell::new(0) };
 }
 
 pub fn set_seed(seed: Option<u64>) {
     SEED.with(|s| s.set(seed));
+    // (the pattern is computed here, not in the allocator: no arithmetic worth mentioning on the allocation path)
+    POISON.with(|p| p.set(seed.map(|s| crate::rng::derive(s, "alloc.poison", 0) | 0x0101_0101_0101_0101).unwrap_or(0)));
     CALLS.with(|c| c.set(0));
     if seed.is_some() {
         MONO_CALLS.with(|c| c.set(0));
@@ -71,6 +75,24 @@ pub fn monotonic_reads() -> u64 {
 /// how often a simulated clock jump has been observed by the simulated process (evidence)
 pub fn clock_jumps() -> u64 {
     CLOCK_JUMPS.with(|c| c.get())
+}
+
+/// The pattern fresh allocations of this simulated process are filled with (no byte of it is zero); None outside a
+/// simulated process. Called from the global allocator: must not allocate.
+pub fn poison_pattern() -> Option<u64> {
+    match POISON.try_with(|p| p.get()) {
+        Ok(0) | Err(_) => None,
+        Ok(p) => Some(p),
+    }
+}
+
+pub fn note_poisoned(n: usize) {
+    let _ = POISONED_BYTES.try_with(|c| c.set(c.get().wrapping_add(n as u64)));
+}
+
+/// bytes of fresh allocations filled on this thread so far (evidence)
+pub fn poisoned_bytes() -> u64 {
+    POISONED_BYTES.with(|c| c.get())
 }
 
 pub fn calls() -> u64 {
